@@ -52,7 +52,7 @@ def hook(sb, op, g, rep):
 
 
 def make_oracles():
-    return [physprop.LockDiscipline()]
+    return [physprop.LockDiscipline(), physprop.PrivateScratch()]
 
 
 def race(rng, rep, same_object=True):
